@@ -141,7 +141,7 @@ def run(prog, rep, tier='quick', config='default'):
                 if not m or c.bb not in L.region[arm]:
                     continue
                 for a in c.args:
-                    o2 = mir.provenance(f, a, pass_through={'deref', 'clone', 'into', 'borrow'})
+                    o2 = mir.provenance(f, a, pass_through={'deref', 'clone', 'into', 'borrow', 'branch', 'from_output', 'unwrap', 'expect', 'ok_or', 'ok_or_else', 'map_err'})
                     if any(fl == 'total_acb' for of, fl in o2.fields) and not [x for x in o2.calls if re.search(r'std::ops::(Add|Sub|Mul|Div|Neg)::', x.decl)]:
                         ops.add(m.group(1))
             for (op, st) in org.binops:
@@ -264,12 +264,26 @@ def run(prog, rep, tier='quick', config='default'):
     # the price is converted with the transaction rate: the value closure receives tx_currency_and_rate
     for arm, adt in (('Buy', 'BuyTxSpecifics'), ('Sell', 'SellTxSpecifics')):
         ok = False
+        want3 = {(adt, 'amount_per_share'), (adt, 'tx_currency_and_rate'), (adt, 'shares')}
         for c in f.calls:
-            if c.bb in L.region[arm] and c.short in ('call', 'call_once', 'call_mut') and len(c.args) == 2:
-                o = mir.provenance(f, c.args[1], follow_all_call_args=True)
-                fs = {(of.rsplit('::', 1)[-1], fl) for of, fl in o.fields}
-                if (adt, 'amount_per_share') in fs and (adt, 'tx_currency_and_rate') in fs and (adt, 'shares') in fs:
-                    ok = True
+            if c.bb not in L.region[arm]:
+                continue
+            # the valuation may be a closure call, a helper function, or a product written out in the arm
+            if c.short in ('call', 'call_once', 'call_mut') and len(c.args) == 2:
+                cand = [c.args[1]]
+            elif prog.resolve(c.callee, f.crate) is not None and len(c.args) >= 3:
+                cand = list(c.args)
+            elif re.search(r'std::ops::Mul::mul$', c.decl):
+                cand = list(c.args)
+            else:
+                continue
+            fs = set()
+            for a in cand:
+                if is_place(a):
+                    o = mir.provenance(f, a, follow_all_call_args=True)
+                    fs |= {(of.rsplit('::', 1)[-1], fl) for of, fl in o.fields}
+            if want3 <= fs:
+                ok = True
         k = 'price-times-transaction-rate|%s' % arm
         if ok:
             rep.ok('R1d', k, fn=f.name, detail='shares, price and the transaction\'s own rate are valued together')
